@@ -203,32 +203,291 @@ def rule_k3_operators(prog: Program, col: Collector) -> None:
             ok = ok or (single and dedup)
         col.check(ok, ref.where(), ref.short, "from_players: id = union of 2**p over the DISTINCT players (set(...) or |=)", construct="from_players",
                   necessity="adding 2**p twice for a repeated player carries into another player's bit")
-    # players / __len__: bit scan
+    # players / __len__: digit scan over the whole (unbounded) id
     for name in ("players", "__len__"):
         ref = mm.get(name)
         if ref is None:
             continue
-        ft = fterms(prog, ref)
-        shifts = [e for e in ft.of_kind("aug") if e.op == ">>" and e.value == ("const", 1)]
-        whiles = [e for e in ft.of_kind("loop") if e.iter is None]
-        masks = [s for ev in ft.events for v in ev.data.values() if isinstance(v, tuple) for s in subterms(v)
-                 if s[0] == "bin" and s[1] == "&" and ("const", 1) in (s[2], s[3])]
-        ok = bool(shifts) and bool(whiles) and bool(masks)
-        if name == "players":
-            ys = list(ft.of_kind("yield"))
-            inc = [e for e in ft.of_kind("aug") if e.op == "+" and e.value == ("const", 1)]
-            ok = ok and bool(ys) and bool(inc) and any(f[0] == "if" for f in ys[0].ctx) and not any(f[0] == "if" for f in inc[0].ctx) \
-                and not any(f[0] == "if" for f in shifts[0].ctx)
-        if not whiles:
-            # bin(x).count('1') / int.bit_count forms
-            rv = list(ft.of_kind("return"))
-            alt = any(s[0] == "call" and s[1][0] == "attr" and s[1][2] in ("bit_count", "count") for r in rv for s in subterms(r.value))
-            if alt:
-                col.ok(ref.where(), ref.short, f"{name}: population count through bit_count/count")
-                continue
-            col.undecidable(ref.where(), ref.short, f"{name}: neither a shift-and-mask scan nor a popcount idiom")
-            continue
-        col.check(ok, ref.where(), ref.short, f"{name}: scan `while x: test x & 1; x >>= 1` visits every bit once", construct=f"bitscan:{name}", necessity=NEC)
+        _decide_bit_scan(prog, col, ref, name, mm, NEC)
+
+
+# --------------------------------------------------------------------------------------
+# size / player listing: a scan that reads EVERY bit of an id of unbounded width
+# --------------------------------------------------------------------------------------
+
+ID = ("attr", SELF, "id")
+
+
+def _const_int(t: Term) -> int | None:
+    """Constant folding of small integer expressions (2**8, 1 << 8, 0xFF, 2**8 - 1)."""
+    if not isinstance(t, tuple):
+        return None
+    if t[0] == "const" and isinstance(t[1], int) and not isinstance(t[1], bool):
+        return t[1]
+    if t[0] == "bin":
+        a, b = _const_int(t[2]), _const_int(t[3])
+        if a is None or b is None:
+            return None
+        try:
+            return {"+": a + b, "-": a - b, "*": a * b, "**": a ** b if 0 <= b < 64 else None, "<<": a << b if 0 <= b < 64 else None,
+                    ">>": a >> b if b >= 0 else None, "&": a & b, "|": a | b}.get(t[1])
+        except Exception:
+            return None
+    return None
+
+
+def _is_popcount_of(t: Term, x: Term) -> bool:
+    """bin(x).count('1') / format(x, 'b').count('1') / x.bit_count() / int.bit_count(x)."""
+    if not isinstance(t, tuple) or t[0] != "call":
+        return False
+    f = t[1]
+    if f[0] == "attr" and f[2] == "bit_count" and f[1] == x and not t[2]:
+        return True
+    if f == ("global", "int.bit_count") and t[2] == (x,):
+        return True
+    if f[0] == "attr" and f[2] == "count" and t[2] == (("const", "1"),):
+        r = f[1]
+        if is_call_to(r, "bin") and r[2] == (x,):
+            return True
+        if is_call_to(r, "format") and r[2] == (x, ("const", "b")):
+            return True
+    return False
+
+
+def _popcount_table_size(prog: Program, ref: FuncRef, t: Term) -> int | None:
+    """Number of entries of a table that is provably ``[popcount(i) for i in range(N)]`` (list/tuple/bytes of a comprehension)."""
+    node = None
+    if t[0] == "global":
+        gv = prog.global_value(t[1])
+        node = gv[1] if gv else None
+    elif t[0] == "attr" and t[1] == SELF and ref.cls is not None:
+        for n in ref.cls.body:
+            if isinstance(n, ast.Assign) and any(isinstance(x, ast.Name) and x.id == t[2] for x in n.targets):
+                node = n.value
+    if node is None:
+        return None
+    if isinstance(node, ast.Call) and isinstance(node.func, ast.Name) and node.func.id in ("list", "tuple", "bytes", "bytearray") and len(node.args) == 1:
+        node = node.args[0]
+    if not isinstance(node, (ast.ListComp, ast.GeneratorExp)) or len(node.generators) != 1:
+        return None
+    g = node.generators[0]
+    if g.ifs or not isinstance(g.target, ast.Name) or not (isinstance(g.iter, ast.Call) and isinstance(g.iter.func, ast.Name) and g.iter.func.id == "range" and len(g.iter.args) == 1):
+        return None
+    var = g.target.id
+    elt = ast.unparse(node.elt).replace('"', "'")
+    if elt not in (f"bin({var}).count('1')", f"{var}.bit_count()", f"int.bit_count({var})", f"format({var}, 'b').count('1')"):
+        return None
+    try:
+        n = eval(compile(ast.Expression(g.iter.args[0]), "<const>", "eval"), {"__builtins__": {}}) if all(  # constant arithmetic only
+            isinstance(x, (ast.Constant, ast.BinOp, ast.operator, ast.Expression)) for x in ast.walk(g.iter.args[0])) else None
+    except Exception:
+        n = None
+    return n if isinstance(n, int) else None
+
+
+def _bit_support(t: Term, x: Term) -> int | None:
+    """If every occurrence of ``x`` in the loop-free term ``t`` sits under ``(x >> c) & m`` / ``x & m`` with constants: the number of low bits
+    of x the value can depend on.  None = some occurrence is unmasked (unbounded support) or of unknown shape."""
+    hi = 0
+
+    def walk(u) -> bool:
+        nonlocal hi
+        if not isinstance(u, tuple):
+            return True
+        if u == x:
+            return False                      # bare occurrence
+        if u and u[0] == "bin" and u[1] == "&":
+            for a, b in ((u[2], u[3]), (u[3], u[2])):
+                m = _const_int(b)
+                if m is not None and m >= 0:
+                    sh = 0
+                    if a[0] == "bin" and a[1] == ">>" and a[2] == x and _const_int(a[3]) is not None:
+                        sh = _const_int(a[3])
+                        a = x
+                    if a == x:
+                        hi = max(hi, sh + m.bit_length())
+                        return True
+        return all(walk(c) for c in u)
+
+    return hi if walk(t) and hi > 0 else None
+
+
+def _decide_bit_scan(prog: Program, col: Collector, ref: FuncRef, name: str, mm: dict, NEC: str) -> None:
+    """``__len__`` must count, and ``players`` must list, every set bit of an id whose width is unbounded (any number of players).
+
+    Recognised families (anything else is UNDECIDED):
+      * direct population count of ``self.id`` (``bin(id).count('1')``, ``id.bit_count()``), or a count of ``self.players``;
+      * digit scan ``x = self.id; while x: acc += D(x & (2**k - 1)); x >>= k`` with D the identity (k = 1), a guarded ``+= 1``, or a
+        lookup in a table that is provably ``[popcount(i) for i in range(2**k)]``;
+      * position scan ``for p in range(self.id.bit_length())`` testing ``(self.id >> p) & 1`` / ``self.id & (1 << p)``.
+    A loop-free expression that reads ``self.id`` only through constant masks depends on finitely many bits: VIOLATION.
+    """
+    ft = fterms(prog, ref)
+    where = ref.where()
+    cons = f"bitscan:{name}"
+    rets = list(ft.of_kind("return"))
+    yields = list(ft.of_kind("yield"))
+    loops = list(ft.of_kind("loop"))
+    wl = [e for e in loops if e.iter is None]
+    fl = [e for e in loops if e.iter is not None]
+
+    def bad(msg: str) -> None:
+        col.violation(where, ref.short, cons, f"{name}: {msg}", NEC)
+
+    def good(msg: str) -> None:
+        col.ok(where, ref.short, f"{name}: {msg}")
+
+    def unknown(msg: str) -> None:
+        col.undecidable(where, ref.short, f"{name}: {msg}")
+
+    # ---------------------------------------------------------------- loop-free forms (size only)
+    if not loops and name == "__len__":
+        if len(rets) != 1:
+            return unknown("several returns in a loop-free size function")
+        v = rets[0].value
+        if _is_popcount_of(v, ID):
+            return good("population count of the whole id")
+        players = ("attr", SELF, "players")
+        if v in (("call", ("global", "len"), (("call", ("global", "list"), (players,), ()),), ()),
+                 ("call", ("global", "len"), (("call", ("global", "tuple"), (players,), ()),), ())) or \
+                (is_call_to(v, "sum") and v[2] and v[2][0][0] == "comp" and v[2][0][2] == ("const", 1) and len(v[2][0][3]) == 1
+                 and v[2][0][3][0][1] == players and not v[2][0][3][0][2]):
+            return good("number of elements of self.players (decided separately)")
+        for s in subterms(v):
+            if s[0] == "call" and any(_is_popcount_of(s, y) for y in subterms(s) if y != s) and not _is_popcount_of(s, ID):
+                sup = next((_bit_support(y, ID) for y in subterms(s) if y != s and _is_popcount_of(s, y)), None)
+                if sup:
+                    return bad(f"population count of a masked id: only the {sup} lowest bits are counted, ids are unbounded")
+        sup = _bit_support(v, ID)
+        if sup:
+            return bad(f"loop-free expression that reads only the {sup} lowest bits of the id (constant masks/shifts): "
+                       f"coalitions with a player >= {sup} get the wrong size; ids are unbounded")
+        return unknown("neither a digit scan nor a population-count idiom")
+    if not loops:
+        return unknown("no scan loop")
+
+    # ---------------------------------------------------------------- position scan: for p in range(self.id.bit_length())
+    if fl and not wl:
+        if len(fl) != 1:
+            return unknown("several loops")
+        lp = fl[0]
+        it, pv = lp.iter, lp.data["frame"][2]
+        full = is_call_to(it, "range") and it[2] == (("call", ("attr", ID, "bit_length"), (), ()),)
+        if is_call_to(it, "range") and len(it[2]) == 1 and _const_int(it[2][0]) is not None:
+            return bad(f"scans bit positions 0..{_const_int(it[2][0]) - 1} only; ids are unbounded")
+        if not full:
+            return unknown(f"for-loop over {short(it, 60)}")
+        tests = (("bin", "&", ("bin", ">>", ID, pv), ("const", 1)), ("bin", "&", ID, ("bin", "<<", ("const", 1), pv)), ("bin", "&", ID, ("bin", "**", ("const", 2), pv)))
+        tests = tests + tuple(("bin", "&", t[3], t[2]) for t in tests)
+        uid = lp.data["uid"]
+        inside = [e for e in ft.events if any(f[0] == "for" and f[1] == uid for f in e.ctx)]
+        if name == "__len__":
+            adds = [e for e in inside if e.kind == "aug" and e.op == "+"]
+            if len(adds) != 1:
+                return unknown("expected exactly one accumulation per position")
+            a = adds[0]
+            guards = [f for f in a.ctx if f[0] == "if"]
+            direct = not guards and a.value in (tests[0], tests[3])
+            guarded = len(guards) == 1 and guards[0][2] is True and guards[0][1] in tests and a.value == ("const", 1)
+            if direct or guarded:
+                return good("position scan over range(id.bit_length()) adding each bit once")
+            return bad(f"position scan adds {short(a.value, 50)} under {[short(g[1], 40) for g in guards]}: not one per set bit")
+        ys = [e for e in inside if e.kind == "yield"]
+        if len(ys) == 1:
+            guards = [f for f in ys[0].ctx if f[0] == "if"]
+            if len(guards) == 1 and guards[0][2] is True and guards[0][1] in tests and ys[0].value == pv:
+                return good("position scan over range(id.bit_length()) yielding each set position")
+            return bad(f"position scan yields {short(ys[0].value, 40)} under {[short(g[1], 40) for g in guards]}")
+        return unknown("position scan of unknown shape")
+
+    # ---------------------------------------------------------------- digit scan: while x: ...; x >>= k
+    if len(wl) != 1 or fl:
+        return unknown("several loops")
+    lp = wl[0]
+    uid = lp.data["uid"]
+    frame = lp.data["frame"]
+    test = frame[2]
+    inside = [e for e in ft.events if any(f[0] == "while" and f[1] == uid for f in e.ctx)]
+    shifts = [e for e in inside if e.kind == "aug" and e.op == ">>" and e.data.get("name")]
+    if len(shifts) != 1:
+        return unknown("expected exactly one `x >>= k` in the scan loop") if shifts else bad("the scan loop never shifts its cursor")
+    sh = shifts[0]
+    xname = sh.data["name"]
+    xh = ("loopmod", xname, uid)
+    k = _const_int(sh.value)
+    if sh.data["target"] != xh:
+        return bad("the cursor is shifted twice in one iteration")
+    if any(f[0] in ("if", "for", "try") for f in sh.ctx):
+        return bad("the cursor is shifted only conditionally: the scan does not advance on every iteration")
+    if k is None or k < 1:
+        return unknown(f"shift by {short(sh.value, 30)}")
+    if test not in (xh, ("cmp", "!=", xh, ("const", 0)), ("cmp", ">", xh, ("const", 0))):
+        return bad(f"the scan stops on `{short(test, 50)}` instead of when the cursor is exhausted: higher bits may be skipped")
+    init = [e for e in ft.of_kind("assign") if e.data.get("name") == xname and e.seq < lp.seq]
+    if not init or init[-1].value != ID:
+        return bad(f"the cursor starts at {short(init[-1].value, 50) if init else 'nothing'} instead of self.id")
+    if any(e.kind in ("assign",) and e.data.get("name") == xname for e in inside):
+        return unknown("the cursor is re-assigned inside the loop")
+    mask = ("const", (1 << k) - 1)
+    digit = [("bin", "&", xh, mask), ("bin", "&", mask, xh)] + ([("bin", "%", xh, ("const", 2))] if k == 1 else [])
+    digit_like = lambda t: t in digit or (t[0] == "bin" and t[1] == "&" and ((t[2] == xh and _const_int(t[3]) == (1 << k) - 1) or (t[3] == xh and _const_int(t[2]) == (1 << k) - 1)))
+    if name == "__len__":
+        adds = [e for e in inside if e.kind == "aug" and e.op == "+"]
+        if len(adds) != 1:
+            return unknown("expected exactly one accumulation per iteration") if adds else bad("nothing is accumulated in the scan loop")
+        a = adds[0]
+        acc = a.data.get("name")
+        guards = [f for f in a.ctx if f[0] == "if"]
+        v = a.value
+        okv = False
+        if not guards and k == 1 and digit_like(v):
+            okv = True
+        elif not guards and v[0] == "ifexp" and k == 1 and digit_like(v[1]) and v[2] == ("const", 1) and v[3] == ("const", 0):
+            okv = True
+        elif len(guards) == 1 and guards[0][2] is True and k == 1 and digit_like(guards[0][1]) and v == ("const", 1):
+            okv = True
+        elif not guards and v[0] == "index" and digit_like(v[2]):
+            n = _popcount_table_size(prog, ref, v[1])
+            if n is None:
+                return unknown(f"digit table {short(v[1], 40)} is not provably [popcount(i) for i in range(2**{k})]")
+            if n < (1 << k):
+                return bad(f"digit table has {n} entries for {k}-bit digits")
+            okv = True
+        elif not guards and any(_is_popcount_of(v, d) for d in digit):
+            okv = True
+        elif not guards and _is_popcount_of(v, xh):
+            return bad("adds the population count of the whole remaining cursor in every iteration (bits counted repeatedly)")
+        if not okv:
+            return bad(f"per iteration the scan adds {short(v, 60)}{' under ' + short(guards[0][1], 40) if guards else ''}: not the number of set bits of the "
+                       f"current {k}-bit digit `x & {(1 << k) - 1}` (a value read after the shift, a wider/narrower mask or shift, or a constant)")
+        i0 = [e for e in ft.of_kind("assign") if e.data.get("name") == acc and e.seq < lp.seq]
+        if not i0 or i0[-1].value != ("const", 0):
+            return bad("the accumulator does not start at 0")
+        if len(rets) != 1 or not isinstance(rets[0].node.value, ast.Name) or rets[0].node.value.id != acc or any(f[0] in ("while", "for", "if") for f in rets[0].ctx):
+            return bad("the function does not return the accumulator after the scan")
+        return good(f"digit scan with {k}-bit digits: every bit of the id is counted exactly once")
+    # players
+    if k != 1:
+        return unknown("player listing with multi-bit digits")
+    if len(yields) != 1:
+        return unknown("expected exactly one yield")
+    y = yields[0]
+    guards = [f for f in y.ctx if f[0] == "if"]
+    incs = [e for e in inside if e.kind == "aug" and e.op == "+" and e.data.get("name")]
+    if len(incs) != 1:
+        return unknown("expected exactly one position counter")
+    inc = incs[0]
+    ih = ("loopmod", inc.data["name"], uid)
+    if inc.value != ("const", 1) or inc.data["target"] != ih or any(f[0] in ("if", "for", "try") for f in inc.ctx):
+        return bad("the position counter does not advance by exactly one on every iteration")
+    i0 = [e for e in ft.of_kind("assign") if e.data.get("name") == inc.data["name"] and e.seq < lp.seq]
+    if not i0 or i0[-1].value != ("const", 0):
+        return bad("the position counter does not start at 0")
+    if not (len(guards) == 1 and guards[0][2] is True and digit_like(guards[0][1])):
+        return bad(f"a position is yielded under {[short(g[1], 40) for g in guards]} instead of `x & 1` of the current cursor")
+    if y.value != ih:
+        return bad(f"yields {short(y.value, 40)} instead of the position of the tested bit (counter advanced before the yield, or another value)")
+    return good("bit scan: yields the position of every set bit once, in increasing order")
 
 
 def rule_e_enum(prog: Program, col: Collector) -> None:
